@@ -65,35 +65,39 @@ Owners(x) == {l \in SeqSet(x.layers) : x.tests[l] # <<>>}
 Rank(x) == [l \in SeqSet(x.layers) |->
               CHOOSE k \in 1..Len(x.layers) : x.layers[k] = l]
 
-Order(x, req) == OrderByBases(x.bases, Rank(x), "", req)
+Order(x, req) == OrderByBases(x.bases, Rank(x), x.unit, req)
 
 (* ----- monitor plumbing -----------------------------------------------------*)
 (* feed one observable event to the P-spec monitor; hook-less layers are     *)
 (* unobservable and produce no event                                         *)
 Mon(m, e, c) == IF e # "" /\ m.err = "" THEN [m EXCEPT !.err = e] ELSE m
+(* the observable events of the current process, in order (history: it is    *)
+(* what Trace_RunnerI.tla compares with the events recorded from real runs); *)
+(* m.done collects the logs of the processes that have ended                 *)
+Log(m, ev) == [m EXCEPT !.log = Append(@, ev)]
 
 MSetUpBegin(m, l) ==
   IF ~w.life[l] THEN m ELSE
-  [Mon(m, SetUpBeginErr(w, m.p, l), 0) EXCEPT !.p = SetUpBegin(m.p, l)]
+  Log([Mon(m, SetUpBeginErr(w, m.p, l), 0) EXCEPT !.p = SetUpBegin(m.p, l)], <<"SUB", l, "">>)
 MSetUpEnd(m, l, s) ==
   IF ~w.life[l] THEN m ELSE
-  [Mon(m, SetUpEndErr(w, m.p, l), 0) EXCEPT !.p = SetUpEnd(m.p, l, s)]
+  Log([Mon(m, SetUpEndErr(w, m.p, l), 0) EXCEPT !.p = SetUpEnd(m.p, l, s)], <<"SUE", l, s>>)
 MTearDownBegin(m, l) ==
   IF ~w.life[l] THEN m ELSE
-  [Mon(m, TearDownBeginErr(w, m.p, l), 0) EXCEPT !.p = TearDownBegin(m.p, l)]
+  Log([Mon(m, TearDownBeginErr(w, m.p, l), 0) EXCEPT !.p = TearDownBegin(m.p, l)], <<"TDB", l, "">>)
 MTearDownEnd(m, l, s) ==
   IF ~w.life[l] THEN m ELSE
-  [Mon(m, TearDownEndErr(w, m.p, l), 0) EXCEPT !.p = TearDownEnd(m.p, l, s)]
+  Log([Mon(m, TearDownEndErr(w, m.p, l), 0) EXCEPT !.p = TearDownEnd(m.p, l, s)], <<"TDE", l, s>>)
 MTestSetUp(m, l) ==
   IF ~w.perUp[l] THEN m ELSE
-  LET r == BrTestSetUp(w, m.p, l) IN [Mon(m, r[1], 0) EXCEPT !.p = r[2]]
+  LET r == BrTestSetUp(w, m.p, l) IN Log([Mon(m, r[1], 0) EXCEPT !.p = r[2]], <<"TSU", l, "">>)
 MTestTearDown(m, l) ==
   IF ~w.perDown[l] THEN m ELSE
-  LET r == BrTestTearDown(w, m.p, l) IN [Mon(m, r[1], 0) EXCEPT !.p = r[2]]
+  LET r == BrTestTearDown(w, m.p, l) IN Log([Mon(m, r[1], 0) EXCEPT !.p = r[2]], <<"TTD", l, "">>)
 MTest(m, tl) ==
   LET m1 == Mon(m, TestStartErr(w, m.p, tl), 0)
       r == BrTest(w, m1.p, tl)
-  IN [Mon(m1, r[1], 0) EXCEPT !.p = r[2]]
+  IN Log([Mon(m1, r[1], 0) EXCEPT !.p = r[2]], <<"T", tl, "">>)
 MIdle(m) == LET r == BrIdle(w, m.p) IN [Mon(m, r[1], 0) EXCEPT !.p = r[2]]
 MProcEnd(m) == LET r == BrIdle(w, m.p)
                IN [Mon(Mon(m, ProcEndErr(w, m.p), 0), r[1], 0) EXCEPT !.p = r[2]]
@@ -101,7 +105,7 @@ MProcEnd(m) == LET r == BrIdle(w, m.p)
 RECURSIVE MFold(_, _, _)
 MFold(Op(_, _), m, s) == IF s = <<>> THEN m ELSE MFold(Op, Op(m, Head(s)), Tail(s))
 
-Mon0 == [p |-> Proc0, err |-> ""]
+Mon0 == [p |-> Proc0, err |-> "", log |-> <<>>, done |-> <<>>]
 
 (* ----- initial state --------------------------------------------------------*)
 Init ==
@@ -110,7 +114,8 @@ Init ==
      \E ts \in [LSet(n) -> TestSeqs \cup {<<>>}] :
      \E suF \in SUBSET LSet(n) : \E td \in [LSet(n) -> {"ok", "raise", "notimpl"}] :
        LET x == [layers |-> [i \in 1..n |-> LName(i)], bases |-> NamedBases(g),
-                 life |-> lf, perUp |-> pf, perDown |-> pdf, tests |-> ts, suF |-> suF, td |-> td]
+                 life |-> lf, perUp |-> pf, perDown |-> pdf, tests |-> ts, suF |-> suF, td |-> td,
+                 unit |-> ""]
        IN /\ Faults(x) <= MaxFaults /\ Owners(x) # {}
           /\ w = x
   /\ opt \in [repeat : Repeats, stop : Stops, par : {m = "par" : m \in Modes}]
@@ -289,7 +294,7 @@ ResumeNext ==
      THEN /\ stash' = <<setupL, mon, anyBad>>
           /\ proc' = proc + 1 /\ mode' = "child"
           /\ toRun' = <<Head(resumeQ)>> /\ resumeQ' = Tail(resumeQ)
-          /\ setupL' = {} /\ mon' = Mon0 /\ anyBad' = FALSE
+          /\ setupL' = {} /\ mon' = [Mon0 EXCEPT !.done = mon.done] /\ anyBad' = FALSE
           /\ pc' = "pick"
           /\ UNCHANGED <<tdq, tdOptional>>
      ELSE /\ tdq' = Reverse(Order(w, SetToSeq(setupL))) /\ tdOptional' = TRUE
@@ -308,7 +313,8 @@ ChildResumeEnd ==
 
 FinalTearDownDone ==
   /\ pc = "finaltd" /\ tdq = <<>>
-  /\ mon' = MProcEnd(mon)
+  /\ mon' = LET m == MProcEnd(mon)
+             IN [m EXCEPT !.done = Append(@, <<IF mode = "child" THEN curLayer ELSE "parent", m.log>>)]
   /\ IF mode = "child"
      THEN \* child exits; the parent continues with the next one
           /\ mode' = "parent" /\ setupL' = stash[1]
@@ -323,7 +329,7 @@ FinalTearDownDone ==
 (* restore the parent's monitor (the child's verdict is already in perr) *)
 BackInParent ==
   /\ pc = "resume2"
-  /\ mon' = stash[2] /\ pc' = "resume"
+  /\ mon' = [stash[2] EXCEPT !.done = mon.done] /\ pc' = "resume"
   /\ UNCHANGED <<w, opt, proc, mode, toRun, setupL, tdq, tdOptional, suStack,
                  curLayer, iter, tIdx, shouldStop, anyBad, resumeQ, shouldResume,
                  stash, perr, executed, usedDev>>
